@@ -12,6 +12,11 @@
 // finish one by one in a drawn order with a TTL + cache cleanup after each.
 // Mappings are identified by the open file behind them (table.VerifReaderFile), so closing a duplicate
 // mapping nobody got is not taken for unmapping a reader in use.
+//
+// cleanup_race_test.go: readers against a RUNNING reader-cache cleanup (unmap seam inside storeCache.Cleanup;
+// nested on the spot when the cache lock is free there, released on their own goroutines when it is held) and
+// the third phase of TestConcurrentStress (readers released inside a cleanup over >= 3 expired files).
+// rollup_pending_test.go: TestPendingRollupFiles, files of pending rollups (two target intervals) survive.
 package c02
 
 import (
@@ -94,6 +99,15 @@ type env struct {
 	pendingKs   []uint32
 	pendingAt   uint32
 	violation   string
+	// reader cache as the harness sees it (guarded by mapMu: racing readers run on goroutines of their own)
+	mapMu         sync.Mutex
+	mapped        map[string]int // family/table => mappings created - mappings closed
+	opens         map[string]int // table path => opens by the reader cache (cache misses)
+	helpers       atomic.Int32   // racing readers running on their own goroutines (hooks called by them must not touch env)
+	cleanup       *cleanupRun    // the cache cleanup started by opCacheCleanup which is running now
+	lastCleanup   *cleanupRun
+	noRace        bool // no further racing readers (the history is finishing: every cleanup would add snapshots)
+	racedCleanups int
 }
 
 // intn is the source of every choice of the reader operations. At top level and inside jobs it is a
@@ -256,6 +270,19 @@ func (e *env) manifestHook(op, _ string, before bool) {
 func (e *env) unmapHook(path string, f *os.File) {
 	name := filepath.Base(path)
 	fam := filepath.Base(filepath.Dir(path))
+	e.mapMu.Lock()
+	e.mapped[fam+"/"+name]--
+	e.mapMu.Unlock()
+	if c := e.cleanup; c != nil {
+		// seam inside a running cache cleanup: racing readers (see cleanup_race_test.go)
+		defer e.checkUnmapped(name, fam, f)
+		e.cleanupSeam(c, fam, name, f)
+		return
+	}
+	e.checkUnmapped(name, fam, f)
+}
+
+func (e *env) checkUnmapped(name, fam string, f *os.File) {
 	for _, h := range e.held {
 		if _, ok := h.readers[f]; ok && h.fam == fam {
 			e.violation = fmt.Sprintf("table %s of family %s is unmapped while open snapshot #%d holds a reader of it", name, fam, h.id)
@@ -271,6 +298,19 @@ func (e *env) unmapHook(path string, f *os.File) {
 // that misses the cache for the very same file: take a snapshot of that family and look up a key of
 // the file being opened; read / close other held snapshots; let the TTL pass and run the cache cleanup.
 func (e *env) openHook(op, path string, before bool) {
+	if before && op == "tableOpen" {
+		e.mapMu.Lock()
+		e.opens[path]++
+		e.mapMu.Unlock()
+	}
+	if !before && op == "tableMap" {
+		e.mapMu.Lock()
+		e.mapped[filepath.Base(filepath.Dir(path))+"/"+filepath.Base(path)]++
+		e.mapMu.Unlock()
+	}
+	if e.helpers.Load() > 0 {
+		return // called by a racing reader on its own goroutine
+	}
 	if e.violation != "" || e.inOpenSeam || e.opening || e.store == nil {
 		return
 	}
@@ -536,8 +576,23 @@ func (e *env) opDeleteObsolete() {
 
 func (e *env) opCacheCleanup() {
 	e.logf("cacheCleanup")
+	c := &cleanupRun{}
+	e.lastCleanup = c
+	if !e.noRace {
+		c.plan = e.planRace()
+	}
 	time.Sleep(2 * time.Millisecond) // entries idle for > TTL(=1ns, compared in ms) become evictable
-	e.runJob("cacheCleanup", func() { kv.VerifCacheCleanup(e.store) })
+	e.runJob("cacheCleanup", func() {
+		e.cleanup = c
+		defer func() { // also when rapid aborts the case by a panic below
+			e.cleanup = nil
+			c.wg.Wait()
+			e.helpers.Store(0)
+		}()
+		kv.VerifCacheCleanup(e.store)
+		e.cleanup = nil
+		e.finishRace(c)
+	})
 	for _, h := range e.held {
 		h.cleanups++
 	}
@@ -831,7 +886,7 @@ func TestSnapshotStability(t *testing.T) {
 			t.Fatalf("harness: %v", err)
 		}
 		e := &env{t: t, dir: dir, storePath: filepath.Join(dir, "store"), fams: map[string]kv.Family{},
-			model: map[string]kvsim.Content{}, classes: map[string]int{}, seamVisits: map[string]int{}, openSpent: map[int64]int{}}
+			model: map[string]kvsim.Content{}, classes: map[string]int{}, seamVisits: map[string]int{}, openSpent: map[int64]int{}, mapped: map[string]int{}, opens: map[string]int{}}
 		e.seamSeed = rapid.Uint64().Draw(t, "openSeamSeed")
 		e.pointOnly = rapid.IntRange(0, 2).Draw(t, "readerProfile") == 2
 		e.maxHeld = rapid.SampledFrom([]int{2, 3, 5}).Draw(t, "maxHeld")
@@ -866,6 +921,14 @@ func TestSnapshotStability(t *testing.T) {
 				h.snap.Close()
 			}
 			e.held = nil
+			if c := e.lastCleanup; c != nil {
+				c.wg.Wait()
+				for _, r := range c.plan {
+					if r.snap != nil && r.held == nil {
+						r.snap.Close() // the case was aborted before the racing reader's snapshot was registered
+					}
+				}
+			}
 			_ = kv.GetStoreManager().CloseStore(e.storePath)
 			_ = os.RemoveAll(dir)
 		}()
@@ -912,6 +975,7 @@ func TestSnapshotStability(t *testing.T) {
 		// (in full, or with point reads in the point-reader profile); the TTL passes and the cache cleanup runs
 		// before the first and after each of them
 		e.opCacheCleanup()
+		e.noRace = true
 		for len(e.held) > 0 {
 			h := e.held[rapid.IntRange(0, len(e.held)-1).Draw(t, "finalClose")]
 			if e.pointOnly {
@@ -945,6 +1009,9 @@ func TestSnapshotStability(t *testing.T) {
 		}
 		if e.raced > 0 {
 			e.classes["history-with-racing-first-readers"]++
+		}
+		if e.racedCleanups > 0 {
+			e.classes["history-with-readers-racing-a-cache-cleanup"]++
 		}
 		for c, n := range e.classes {
 			ev.Class("TestSnapshotStability", c, n)
@@ -1024,7 +1091,16 @@ func TestConcurrentStress(t *testing.T) {
 		}
 		done := make(chan struct{})
 		var wg sync.WaitGroup
-		var snapsChecked, snapsAcross atomic.Int64
+		var snapsChecked, snapsAcross, knownStale atomic.Int64
+		// known finding (see regression_test.go): while it is listed, a held snapshot whose files were deleted
+		// because a stale Release dropped its version is counted, not reported
+		isKnownStale := func(err error) bool {
+			if ev.Known(sigStaleRelease) && strings.Contains(err.Error(), "no such file or directory") {
+				knownStale.Add(1)
+				return true
+			}
+			return false
+		}
 		wg.Add(1)
 		go func() { // writer
 			defer wg.Done()
@@ -1077,8 +1153,11 @@ func TestConcurrentStress(t *testing.T) {
 					hi := started.Load()
 					first, err := kvsim.ReadSnapshot(snap, probe)
 					if err != nil {
-						fail("snapshot read: %v", err)
 						snap.Close()
+						if isKnownStale(err) {
+							continue
+						}
+						fail("snapshot read: %v", err)
 						return
 					}
 					m, ok := prefixOf(first)
@@ -1092,7 +1171,9 @@ func TestConcurrentStress(t *testing.T) {
 					for j := 0; j < 3; j++ {
 						again, err := kvsim.ReadSnapshot(snap, probe)
 						if err != nil {
-							fail("re-read of held snapshot (commits 1..%d): %v", m, err)
+							if !isKnownStale(err) {
+								fail("re-read of held snapshot (commits 1..%d): %v", m, err)
+							}
 							break
 						}
 						if !first.Equal(again) {
@@ -1122,11 +1203,15 @@ func TestConcurrentStress(t *testing.T) {
 			map[string]any{"round": round, "flushes": flushes, "snapshots_checked": snapsChecked.Load(), "snapshots_held_across_commit": snapsAcross.Load()})
 		ev.Class("TestConcurrentStress", "snapshots-checked", int(snapsChecked.Load()))
 		ev.Class("TestConcurrentStress", "snapshots-held-across-commit", int(snapsAcross.Load()))
+		if n := knownStale.Load(); n > 0 {
+			ev.Class("TestConcurrentStress", "excluded_known", int(n))
+		}
 		if failure != "" {
 			t.Fatalf("round %d (maxFileSize %d): %s", round, []uint32{0, 16, 64}[round%3], failure)
 		}
 	}
 	coldFirstReaders(t)
+	expiredHitReaders(t)
 }
 
 // ---- second phase of TestConcurrentStress: real goroutines on the reader-cache miss path -----------
